@@ -16,7 +16,7 @@ SnapOK == cur' = Ev.cur /\ retained' = SetOf(Ev.vers) /\ pins' = PinFun(Ev.pins)
 
 TInit ==
     /\ l = 1
-    /\ now = 0 /\ cur = 1 /\ content = (1 :> <<"", FALSE>>) /\ loaded = ""
+    /\ now = 0 /\ cur = 1 /\ content = (1 :> <<"", FALSE>>) /\ loaded = {""}
     /\ retained = {1} /\ hyp = <<>> /\ last = [ev |-> "init", ok |-> TRUE]
     /\ pins = <<>> /\ txnQ = <<>> /\ verQ = <<>> /\ txnNext = -1 /\ verNext = -1
     /\ lk = [x \in Txns |-> [st |-> "idle", v |-> 0, cs |-> {}]]
@@ -25,7 +25,7 @@ TInit ==
 
 TReset ==
     /\ l < TraceLen /\ Ev.ev = "reset" /\ l' = l + 1 /\ Idle
-    /\ now' = 0 /\ cur' = Ev.cur /\ content' = (Ev.cur :> <<Ev.clabel, Ev.cdf>>) /\ loaded' = Ev.label
+    /\ now' = 0 /\ cur' = Ev.cur /\ content' = (Ev.cur :> <<Ev.clabel, Ev.cdf>>) /\ loaded' = {Ev.label}
     /\ retained' = SetOf(Ev.vers) /\ hyp' = <<>> /\ last' = [ev |-> "reset", ok |-> TRUE]
     /\ pins' = <<>> /\ txnQ' = <<>> /\ verQ' = <<>> /\ txnNext' = -1 /\ verNext' = -1
     /\ UNCHANGED <<lk, up, len, nupd>>
@@ -41,7 +41,9 @@ TU1 == /\ l < TraceLen /\ Ev.ev = "update" /\ Ev.ok /\ Idle /\ U1(Ev.op, Ev.labe
 TU2 == /\ l < TraceLen /\ Ev.ev = "update" /\ U2 /\ l' = l + 1
        /\ cur = Ev.cur /\ retained = SetOf(Ev.vers) /\ pins = PinFun(Ev.pins)
 TUFail == /\ l < TraceLen /\ Ev.ev = "update" /\ ~Ev.ok /\ Idle /\ l' = l + 1
-          /\ cur = Ev.cur /\ UNCHANGED vars
+          /\ Update(Ev.op, Ev.label, FALSE, Ev.cur, <<>>)
+          /\ retained = SetOf(Ev.vers) /\ pins = PinFun(Ev.pins)
+          /\ UNCHANGED <<retained, ivars>>
 
 TAdv == /\ l < TraceLen /\ Ev.ev = "adv" /\ Idle /\ Adv(Ev.d) /\ l' = l + 1
         /\ now' = Ev.t /\ SnapOK
